@@ -69,7 +69,16 @@ class VariableDefinition:
 
     def evaluate(self, context: RuntimeContext) -> FieldValue:
         """Evaluate the expression"""
-        return self.expression.render(context)
+        try:
+            return self.expression.render(context)
+        except DataGenError:
+            raise
+        except Exception as e:
+            raise DataGenError(
+                f"Cannot evaluate variable `{self.varname}`: {e}",
+                self.filename,
+                self.line_num,
+            ) from e
 
     def execute(
         self, interp: Interpreter, parent_context: RuntimeContext, continuing: bool
